@@ -474,7 +474,42 @@ func checkC20(w *World) {
 				}
 			}
 		})
-		if len(prefixCalls) == 0 || len(fn.Params) < 2 {
+		// a record writer may also take its prefix from a helper of the command that returns <path> + ": "
+		viaHelper := false
+		if len(prefixCalls) == 0 && len(fn.Params) >= 2 {
+			allInstrs(fn, func(in ssa.Instruction) {
+				c, ok := in.(*ssa.Call)
+				if !ok {
+					return
+				}
+				g := staticCallee(c)
+				if g == nil || fnPkgKey(g) != "xsel" || g.Signature.Results().Len() != 1 {
+					return
+				}
+				allInstrs(g, func(in2 ssa.Instruction) {
+					if r, ok := in2.(*ssa.Return); ok && len(r.Results) == 1 {
+						if sliceContains(r.Results[0], isPrefixValue) {
+							viaHelper = true
+						}
+					}
+				})
+			})
+		}
+		if (len(prefixCalls) == 0 && !viaHelper) || len(fn.Params) < 2 {
+			continue
+		}
+		if viaHelper && len(prefixCalls) == 0 {
+			wi := writerInfo{fn: fn, gates: map[string]bool{}}
+			for _, sup := range []bool{false, true} {
+				for _, dash := range []bool{false, true} {
+					emitted, und := simulatePrefix(fn, sup, dash, flagLetter["n"])
+					if und != "" {
+						wi.undec = und
+					}
+					wi.gates[fmt.Sprintf("suppress=%v stdin=%v", sup, dash)] = emitted
+				}
+			}
+			writers = append(writers, wi)
 			continue
 		}
 		// skip diagnostics (stderr)
@@ -490,7 +525,7 @@ func checkC20(w *World) {
 		wi := writerInfo{fn: fn, gates: map[string]bool{}}
 		for _, sup := range []bool{false, true} {
 			for _, dash := range []bool{false, true} {
-				emitted, und := simulatePrefix(fn, sup, dash)
+				emitted, und := simulatePrefix(fn, sup, dash, flagLetter["n"])
 				if und != "" {
 					wi.undec = und
 				}
@@ -642,6 +677,10 @@ func checkC20(w *World) {
 			nW++
 			arg := c.Call.Args[1]
 			if s, ok := constString(arg); ok {
+				w.check(P, "R20.4", "constant written to the per-file buffer", c.Pos(), s == "\n", fmt.Sprintf("%q", s))
+				return
+			}
+			if s := bytesConst(arg); s != "?" {
 				w.check(P, "R20.4", "constant written to the per-file buffer", c.Pos(), s == "\n", fmt.Sprintf("%q", s))
 				return
 			}
@@ -797,31 +836,162 @@ func bytesConst(v ssa.Value) string {
 			return s
 		}
 	}
+	// a package-level byte slice initialised once with []byte("literal") and never assigned again
+	if ld, ok := v.(*ssa.UnOp); ok {
+		if g, ok := ld.X.(*ssa.Global); ok && g.Pkg != nil {
+			val, n := "?", 0
+			for _, m := range g.Pkg.Members {
+				fn, ok := m.(*ssa.Function)
+				if !ok {
+					continue
+				}
+				for _, f := range append([]*ssa.Function{fn}, fn.AnonFuncs...) {
+					allInstrs(f, func(in ssa.Instruction) {
+						if st, ok := in.(*ssa.Store); ok && st.Addr == ssa.Value(g) {
+							n++
+							if cv, ok := st.Val.(*ssa.Convert); ok {
+								if s, ok := constString(cv.X); ok {
+									val = s
+								}
+							}
+						}
+					})
+				}
+			}
+			if n == 1 {
+				return val
+			}
+		}
+	}
 	return "?"
 }
 
 // simulatePrefix walks fn deciding branches on the suppress flag and on path == "-"; reports whether a
 // Fprintf with a "%s: " format to a non-stderr writer is executed on the first iteration.
-func simulatePrefix(fn *ssa.Function, suppress, dash bool) (bool, string) {
+// prefixSim walks one function of the command under an assignment of the two inputs that gate the record prefix
+// (the -n flag and "the input is stdin"), following calls of helper functions of the command.
+type prefixSim struct {
+	suppress, dash bool
+	suppressVar    string // the package variable registered for -n
+	depth          int
+}
+
+// isPrefixValue: a string that starts a record with the file name: <path> + ": ".
+func isPrefixValue(v ssa.Value) bool {
+	bo, ok := v.(*ssa.BinOp)
+	if !ok || bo.Op != token.ADD {
+		return false
+	}
+	if s, ok := constString(bo.Y); ok && strings.HasSuffix(s, ": ") {
+		return true
+	}
+	return false
+}
+
+// run returns whether a prefix is emitted on the path taken, the value returned (first result) and a reason when the
+// path cannot be decided.
+func (ps *prefixSim) run(fn *ssa.Function) (emitted bool, ret ssa.Value, undecided string) {
+	if ps.depth > 4 || len(fn.Blocks) == 0 {
+		return false, nil, "helper nesting too deep"
+	}
 	b := fn.Blocks[0]
-	emitted := false
+	var prev *ssa.BasicBlock
 	visited := map[*ssa.BasicBlock]int{}
+	resolve := func(v ssa.Value) ssa.Value {
+		for i := 0; i < 4; i++ {
+			phi, ok := v.(*ssa.Phi)
+			if !ok {
+				return v
+			}
+			found := false
+			for j, p := range phi.Block().Preds {
+				if p == prev && phi.Block() == b {
+					v, found = phi.Edges[j], true
+					break
+				}
+			}
+			if !found {
+				return v
+			}
+		}
+		return v
+	}
+	phiNow := map[*ssa.Phi]ssa.Value{}
+	var eval func(v ssa.Value) (bool, bool)
+	eval = func(v ssa.Value) (bool, bool) {
+		switch x := v.(type) {
+		case *ssa.Const:
+			if x.Value != nil && (x.Value.String() == "true" || x.Value.String() == "false") {
+				return x.Value.String() == "true", true
+			}
+		case *ssa.UnOp:
+			if x.Op == token.NOT {
+				r, ok := eval(x.X)
+				return !r, ok
+			}
+			if n := mainGlobalLoad(x); n != "" && n == ps.suppressVar {
+				return ps.suppress, true
+			}
+		case *ssa.BinOp:
+			for _, pair := range [][2]ssa.Value{{x.X, x.Y}, {x.Y, x.X}} {
+				if s, ok := constString(pair[1]); ok && s == "-" {
+					if x.Op == token.EQL {
+						return ps.dash, true
+					}
+					if x.Op == token.NEQ {
+						return !ps.dash, true
+					}
+				}
+			}
+		case *ssa.Phi:
+			if t, ok := phiNow[x]; ok {
+				return eval(t)
+			}
+		case *ssa.Call:
+			if g := staticCallee(x); g != nil && fnPkgKey(g) == "xsel" && g.Signature.Results().Len() == 1 {
+				if bt, ok := g.Signature.Results().At(0).Type().Underlying().(*types.Basic); ok && bt.Kind() == types.Bool {
+					sub := &prefixSim{ps.suppress, ps.dash, ps.suppressVar, ps.depth + 1}
+					_, rv, und := sub.run(g)
+					if und != "" || rv == nil {
+						return false, false
+					}
+					return sub.evalConst(rv)
+				}
+			}
+		}
+		return false, false
+	}
 	for steps := 0; steps < 200; steps++ {
 		visited[b]++
 		if visited[b] > 1 {
-			return emitted, "" // second iteration of a loop: same decisions
+			return emitted, nil, "" // second iteration of a loop: same decisions
 		}
 		var next *ssa.BasicBlock
 		for _, in := range b.Instrs {
 			switch x := in.(type) {
+			case *ssa.Phi:
+				phiNow[x] = resolve(x)
 			case *ssa.Call:
 				if staticCallee(x) != nil && funcFullName(staticCallee(x)) == "fmt.Fprintf" {
 					if s, ok := constString(x.Call.Args[1]); ok && strings.HasPrefix(s, "%s: ") && !isGlobalLoad(x.Call.Args[0], "os", "Stderr") {
 						emitted = true
 					}
 				}
+				// a helper of the command that produces the prefix (or writes it)
+				if g := staticCallee(x); g != nil && fnPkgKey(g) == "xsel" && g != fn {
+					if bt, ok := g.Signature.Results().At(0).Type().Underlying().(*types.Basic); g.Signature.Results().Len() == 1 && ok && bt.Kind() == types.String {
+						sub := &prefixSim{ps.suppress, ps.dash, ps.suppressVar, ps.depth + 1}
+						_, rv, und := sub.run(g)
+						if und != "" {
+							return emitted, nil, und
+						}
+						if rv != nil && isPrefixValue(rv) {
+							emitted = true
+						}
+					}
+				}
 			case *ssa.If:
-				val, ok := evalGate(x.Cond, suppress, dash)
+				val, ok := eval(x.Cond)
 				if !ok {
 					// loop conditions and error tests: take the path that continues the function body (true for range loops, false for err != nil)
 					if bo, isBo := x.Cond.(*ssa.BinOp); isBo && bo.Op == token.LSS {
@@ -829,49 +999,70 @@ func simulatePrefix(fn *ssa.Function, suppress, dash bool) (bool, string) {
 					} else if bo, isBo := x.Cond.(*ssa.BinOp); isBo && bo.Op == token.NEQ && isNilConst(bo.Y) {
 						val = false
 					} else {
-						return emitted, "branch on a condition other than the suppress flag, the stdin marker, a loop bound or an error test"
+						return emitted, nil, "branch on a condition other than the suppress flag, the stdin marker, a loop bound or an error test"
 					}
 				}
+				prev = b
 				if val {
 					next = b.Succs[0]
 				} else {
 					next = b.Succs[1]
 				}
 			case *ssa.Jump:
+				prev = b
 				next = b.Succs[0]
 			case *ssa.Return:
-				return emitted, ""
+				var rv ssa.Value
+				if len(x.Results) > 0 {
+					rv = x.Results[0]
+					if phi, ok := rv.(*ssa.Phi); ok {
+						if t, ok := phiNow[phi]; ok {
+							rv = t
+						}
+					}
+				}
+				return emitted, rv, ""
 			}
 		}
 		if next == nil {
-			return emitted, ""
+			return emitted, nil, ""
 		}
 		b = next
 	}
-	return emitted, "path too long"
+	return emitted, nil, "path too long"
 }
 
-func evalGate(v ssa.Value, suppress, dash bool) (bool, bool) {
+func (ps *prefixSim) evalConst(v ssa.Value) (bool, bool) {
 	switch x := v.(type) {
+	case *ssa.Const:
+		if x.Value != nil && (x.Value.String() == "true" || x.Value.String() == "false") {
+			return x.Value.String() == "true", true
+		}
 	case *ssa.UnOp:
 		if x.Op == token.NOT {
-			r, ok := evalGate(x.X, suppress, dash)
+			r, ok := ps.evalConst(x.X)
 			return !r, ok
 		}
-		if mainGlobalLoad(x) == "suppressFileNames" {
-			return suppress, true
+		if n := mainGlobalLoad(x); n != "" && n == ps.suppressVar {
+			return ps.suppress, true
 		}
 	case *ssa.BinOp:
-		if s, ok := constString(x.Y); ok && s == "-" {
-			if x.Op == token.EQL {
-				return dash, true
-			}
-			if x.Op == token.NEQ {
-				return !dash, true
+		for _, pair := range [][2]ssa.Value{{x.X, x.Y}, {x.Y, x.X}} {
+			if s, ok := constString(pair[1]); ok && s == "-" {
+				if x.Op == token.EQL {
+					return ps.dash, true
+				}
+				if x.Op == token.NEQ {
+					return !ps.dash, true
+				}
 			}
 		}
-	case *ssa.Phi:
-		// short-circuit && / ||: evaluate as the edge chosen by the first operand
 	}
 	return false, false
+}
+
+func simulatePrefix(fn *ssa.Function, suppress, dash bool, suppressVar string) (bool, string) {
+	ps := &prefixSim{suppress: suppress, dash: dash, suppressVar: suppressVar}
+	e, _, u := ps.run(fn)
+	return e, u
 }
